@@ -8,7 +8,7 @@ namespace Hv.Claim
 
 def good : Cfg :=
   { selectAtomic := true, counterLe := false, checksExpNonZero := true, rechecksIndexedLeg := true,
-    reindexChecksExists := true, patchChecksExists := true, emptyCandMeansAll := false }
+    reindexChecksExists := true, patchChecksExists := true, emptyCandMeansAll := false, deleteRevalidates := true }
 
 /-! ### the selection pass -/
 
@@ -244,70 +244,6 @@ theorem delAll_present (persisted : Bool) (recs : Nat → Rec) (ks : List Nat) (
     | false => simp
     | true => simp [hp] at h; simp [h]
 
-theorem inv_shift (cfg : Cfg) (pred : Bool) (sp : St × Bool) (c n : Nat) (want : Option Nat) (h : Inv pred sp)
-    (hcand : pred = true → ∀ k, shiftPred cfg sp.1 c want k = true → (sp.1.recs k).present = true → shiftOk sp.1 want k = true) :
-    Inv pred (commitShift sp.2 sp.1 c n want (walk (shiftPred cfg sp.1 c want) false n sp.1.index 0).1
-          (walk (shiftPred cfg sp.1 c want) false n sp.1.index 0).2 sp.1.index (shiftOk sp.1 want), sp.2) := by
-  let p := shiftPred cfg sp.1 c want
-  have hsub1 := walk_sub1 p false n sp.1.index 0
-  have hsub2 := walk_sub2 p false n sp.1.index 0
-  have hdisj := walk_disj p false n sp.1.index 0 h.nodup
-  have hpred := walk_pred p false n sp.1.index 0
-  have hlen := walk_len p n sp.1.index 0
-  have hpres := delAll_present sp.2 sp.1.recs (walk p false n sp.1.index 0).1
-  refine ⟨?_, ?_, ?_, ?_, ?_, h.pok, ?_, ?_, ?_, h.selnd⟩
-  · exact h.nodup.sublist hsub2
-  · intro k hk
-    show (delAll sp.2 sp.1.recs (walk p false n sp.1.index 0).1 k).present = true
-    rw [hpres]
-    have hnot : k ∉ (walk p false n sp.1.index 0).1 := fun hin => hdisj k hin hk
-    simp [h.live k (hsub2.subset hk), hnot]
-  · intro cl hcl
-    have hcl' : cl ∈ sp.1.claimed ++ (walk p false n sp.1.index 0).1.map (fun k => ({ claimer := c, key := k, ok := shiftOk sp.1 want k } : Claim)) := hcl
-    rcases List.mem_append.mp hcl' with hc | hc
-    · refine ⟨(h.gone cl hc).1, ?_⟩
-      show (delAll sp.2 sp.1.recs (walk p false n sp.1.index 0).1 cl.key).present = false
-      rw [hpres]; simp [(h.gone cl hc).2]
-    · simp only [List.mem_map] at hc
-      obtain ⟨k, hk, rfl⟩ := hc
-      refine ⟨h.bornP k (h.live k (hsub1.subset hk)), ?_⟩
-      show (delAll sp.2 sp.1.recs (walk p false n sp.1.index 0).1 k).present = false
-      rw [hpres]; simp [hk]
-  · show (sp.1.claimed ++ (walk p false n sp.1.index 0).1.map (fun k => ({ claimer := c, key := k, ok := shiftOk sp.1 want k } : Claim))).Pairwise _
-    rw [List.pairwise_append]
-    refine ⟨h.once, ?_, ?_⟩
-    · rw [List.pairwise_map]
-      exact List.Pairwise.imp (fun hne => by simpa using hne) (h.nodup.sublist hsub1)
-    · intro a ha b hb
-      simp only [List.mem_map] at hb
-      obtain ⟨k, hk, rfl⟩ := hb
-      intro he
-      have h1 := (h.gone a ha).2
-      have h2 := h.live k (hsub1.subset hk)
-      simp only at he; rw [he] at h1; rw [h1] at h2; exact absurd h2 (by simp)
-  · intro hpd cl hcl
-    have hcl' : cl ∈ sp.1.claimed ++ (walk p false n sp.1.index 0).1.map (fun k => ({ claimer := c, key := k, ok := shiftOk sp.1 want k } : Claim)) := hcl
-    rcases List.mem_append.mp hcl' with hc | hc
-    · exact h.ok hpd cl hc
-    · simp only [List.mem_map] at hc
-      obtain ⟨k, hk, rfl⟩ := hc
-      exact hcand hpd k (hpred k hk) (h.live k (hsub1.subset hk))
-  · intro b hb
-    have hb' : b ∈ sp.1.batches ++ [({ claimer := c, howMany := n, got := (walk p false n sp.1.index 0).1, before := sp.1.index } : Batch)] := hb
-    rcases List.mem_append.mp hb' with hb1 | hb1
-    · exact h.bat b hb1
-    · simp at hb1; subst hb1
-      exact ⟨by simpa using hlen, hsub1⟩
-  · intro k hk
-    refine ⟨(h.dead k hk).1, ?_⟩
-    show (delAll sp.2 sp.1.recs (walk p false n sp.1.index 0).1 k).present = false
-    rw [hpres]; simp [(h.dead k hk).2]
-  · intro k hk
-    have : (delAll sp.2 sp.1.recs (walk p false n sp.1.index 0).1 k).present = true := hk
-    rw [hpres] at this
-    simp at this
-    exact h.bornP k this.1
-
 /-- the three predicate facts at their repaired values -/
 def PredGood (cfg : Cfg) : Prop :=
   cfg.checksExpNonZero = true ∧ cfg.rechecksIndexedLeg = true ∧ cfg.emptyCandMeansAll = false
@@ -347,6 +283,7 @@ def Act.isTail : Act → Bool
   | _ => false
 
 theorem inv_step (cfg : Cfg) (pred : Bool) (hsa : cfg.selectAtomic = true) (hle : cfg.counterLe = false)
+    (hdr : cfg.deleteRevalidates = true)
     (hpd : pred = true → PredGood cfg)
     (sp : St × Bool) (a : Act) (sp' : St × Bool)
     (htail : a.isTail = true → cfg.reindexChecksExists = true ∧ cfg.patchChecksExists = true)
@@ -447,8 +384,98 @@ theorem inv_step (cfg : Cfg) (pred : Bool) (hsa : cfg.selectAtomic = true) (hle 
     exact ⟨h.nodup, h.live, h.gone, h.once, h.ok, h.pok, h.bat, h.dead, h.bornP, h.selnd⟩
   | shift c n want =>
     simp only [step, hsa, hle] at hs
-    simp at hs; subst hs
-    exact inv_shift cfg pred sp c n want h (fun hp k hk hpres => shift_ok_good cfg (hpd hp) sp.1 c want k hk hpres)
+    cases hse : (sp.1.shsel c).isEmpty with
+    | false => simp [hse] at hs
+    | true =>
+      simp [hse] at hs; subst hs
+      let pr := shiftPred cfg sp.1 c want
+      have hsub1 := walk_sub1 pr false n sp.1.index 0
+      have hsub2 := walk_sub2 pr false n sp.1.index 0
+      refine ⟨h.nodup.sublist hsub2, fun k hk => h.live k (hsub2.subset hk), h.gone, h.once, h.ok, h.pok, ?_, h.dead, h.bornP, h.selnd⟩
+      intro b hb
+      have hb' : b ∈ sp.1.batches ++ [({ claimer := c, howMany := n, got := (walk pr false n sp.1.index 0).1, before := sp.1.index } : Batch)] := hb
+      rcases List.mem_append.mp hb' with hb1 | hb1
+      · exact h.bat b hb1
+      · simp at hb1; subst hb1
+        exact ⟨by simpa using walk_len pr n sp.1.index 0, hsub1⟩
+  | shiftDel c k =>
+    simp only [step] at hs
+    cases hf : (sp.1.shsel c).find? (fun e => e.1 == k) with
+    | none => simp [hf] at hs
+    | some e =>
+      simp only [hf, hdr, if_true] at hs
+      cases hc : ((sp.1.recs k).present && shiftPred cfg sp.1 c (sp.1.shwant c) k) with
+      | true =>
+        simp only [hc, if_true] at hs
+        cases hs
+        have hc' := hc
+        simp only [Bool.and_eq_true] at hc'
+        obtain ⟨hp, hprd⟩ := hc'
+        have hdel : (delRec sp.2 (sp.1.recs k)).present = false := delRec_present _ _
+        have hpres : ∀ x, (upd sp.1.recs k (delRec sp.2 (sp.1.recs k)) x).present = ((sp.1.recs x).present && (x != k)) := by
+          intro x; by_cases hx : x = k
+          · subst hx; rw [upd_same, hdel]; simp
+          · rw [upd_other _ _ _ _ hx]; simp [hx]
+        refine ⟨filter_ne_nodup _ k h.nodup, ?_, ?_, ?_, ?_, h.pok, h.bat, ?_, ?_, h.selnd⟩
+        · intro x hx
+          have hx' : x ∈ sp.1.index.filter (· != k) := hx
+          rw [List.mem_filter] at hx'
+          show (upd sp.1.recs k _ x).present = true
+          rw [hpres]; simp [h.live x hx'.1]; simpa using hx'.2
+        · intro cl hcl
+          have hcl' : cl ∈ sp.1.claimed ++ [({ claimer := c, key := k, ok := shiftOk sp.1 (sp.1.shwant c) k } : Claim)] := hcl
+          rcases List.mem_append.mp hcl' with h1 | h1
+          · refine ⟨(h.gone cl h1).1, ?_⟩
+            show (upd sp.1.recs k _ cl.key).present = false
+            rw [hpres]; simp [(h.gone cl h1).2]
+          · simp at h1; subst h1
+            refine ⟨h.bornP k hp, ?_⟩
+            show (upd sp.1.recs k _ k).present = false
+            rw [hpres]; simp
+        · show (sp.1.claimed ++ [({ claimer := c, key := k, ok := shiftOk sp.1 (sp.1.shwant c) k } : Claim)]).Pairwise _
+          rw [List.pairwise_append]
+          refine ⟨h.once, by simp, ?_⟩
+          intro a ha b hb
+          simp at hb; subst hb
+          intro he
+          have h1 := (h.gone a ha).2
+          simp only at he; rw [he, hp] at h1; exact absurd h1 (by simp)
+        · intro hp0 cl hcl
+          have hcl' : cl ∈ sp.1.claimed ++ [({ claimer := c, key := k, ok := shiftOk sp.1 (sp.1.shwant c) k } : Claim)] := hcl
+          rcases List.mem_append.mp hcl' with h1 | h1
+          · exact h.ok hp0 cl h1
+          · simp at h1; subst h1
+            exact shift_ok_good cfg (hpd hp0) sp.1 c (sp.1.shwant c) k hprd hp
+        · intro x hx
+          refine ⟨(h.dead x hx).1, ?_⟩
+          show (upd sp.1.recs k _ x).present = false
+          rw [hpres]; simp [(h.dead x hx).2]
+        · intro x hx
+          have : (upd sp.1.recs k (delRec sp.2 (sp.1.recs k)) x).present = true := hx
+          rw [hpres] at this; simp at this; exact h.bornP x this.1
+      | false =>
+        simp only [hc, Bool.false_eq_true, if_false] at hs
+        cases hs
+        refine ⟨?_, ?_, h.gone, h.once, h.ok, h.pok, h.bat, h.dead, h.bornP, h.selnd⟩
+        · cases hcond : ((sp.1.recs k).present && (sp.1.recs k).exp != 0) with
+          | true =>
+            simp only [if_true]
+            exact nodup_ins _ k _ (not_mem_filter_ne _ k) (filter_ne_nodup _ k h.nodup)
+          | false =>
+            simp only [Bool.false_eq_true, if_false]
+            exact filter_ne_nodup _ k h.nodup
+        · intro x hx
+          cases hcond : ((sp.1.recs k).present && (sp.1.recs k).exp != 0) with
+          | true =>
+            have hx' : x ∈ ins (fun y => (sp.1.recs y).exp) k (sp.1.index.filter (· != k)) := by
+              simpa only [hcond, if_true] using hx
+            rcases (mem_ins _ k x _).mp hx' with rfl | h1
+            · simp only [Bool.and_eq_true] at hcond; exact hcond.1
+            · exact h.live x ((List.mem_filter.mp h1).1)
+          | false =>
+            have hx' : x ∈ sp.1.index.filter (· != k) := by
+              simpa only [hcond, Bool.false_eq_true, if_false] using hx
+            exact h.live x ((List.mem_filter.mp hx').1)
   | shiftRead c n want => simp [step, hsa] at hs
   | shiftWrite c => simp [step, hsa] at hs
   | pselect p n useCand =>
@@ -490,7 +517,7 @@ theorem inv_step (cfg : Cfg) (pred : Bool) (hsa : cfg.selectAtomic = true) (hle 
         simp [hpc] at hcond
         simp at hs; subst hs
         have hp : (sp.1.recs k).present = true := hcond.2
-        have hpres : ∀ x, (upd sp.1.recs k { sp.1.recs k with status := ns, exp := ne, present := true } x).present = (sp.1.recs x).present := by
+        have hpres : ∀ x, (upd sp.1.recs k { sp.1.recs k with status := ns, exp := ne, present := true, ver := (sp.1.recs k).ver + 1 } x).present = (sp.1.recs x).present := by
           intro x; by_cases hx : x = k
           · subst hx; rw [upd_same]; exact hp.symm
           · rw [upd_other _ _ _ _ hx]
@@ -507,7 +534,7 @@ theorem inv_step (cfg : Cfg) (pred : Bool) (hsa : cfg.selectAtomic = true) (hle 
         · intro x hx; refine ⟨(h.dead x hx).1, ?_⟩
           show (upd sp.1.recs k _ x).present = false; rw [hpres]; exact (h.dead x hx).2
         · intro x hx
-          have : (upd sp.1.recs k { sp.1.recs k with status := ns, exp := ne, present := true } x).present = true := hx
+          have : (upd sp.1.recs k { sp.1.recs k with status := ns, exp := ne, present := true, ver := (sp.1.recs k).ver + 1 } x).present = true := hx
           rw [hpres] at this; exact h.bornP x this
   | preindex p =>
     have hrc := (htail rfl).1
